@@ -231,7 +231,8 @@ func (s *Server[StateT]) handleOpenFile(ctx *Context[StateT]) error {
 
 	filePath = cleanRequestPath(filePath)
 
-	if _, name := filepath.Split(filePath); name == "CLOSEFILE" {
+	// only the reserved path itself: file with this name in some directory is a regular file
+	if filePath == string(filepath.Separator)+"CLOSEFILE" {
 		s.Handler.HandleCloseFile(ctx)
 		return ctx.wr.SendOpenFileForCLOSEFILE()
 	}
